@@ -413,7 +413,12 @@ func runC18(p *core.Prog, r *core.Report) {
 		}
 	})
 	if len(copyCalls) == 0 {
-		r.Fail("C18-R3", "CopyFile: copy step", p.FuncPos(cp), "no copy step (io.Copy …) found")
+		// a hand-written read/write loop in place of io.Copy: judged by the obligations io.Copy's contract stands for
+		if why, found := checkCopyLoop(p, cp); found {
+			r.Check(why == "", "C18-R3", "CopyFile: hand-written copy loop", p.FuncPos(cp), "every chunk read is written in full, a write error or short write ends the copy with an error, success is reported only at io.EOF", why)
+		} else {
+			r.Fail("C18-R3", "CopyFile: copy step", p.FuncPos(cp), "no copy step (io.Copy …, or a read/write loop) found")
+		}
 	}
 	for i, cc := range copyCalls {
 		// every return reachable after the copy returns its error (or a value derived from the call)
@@ -563,6 +568,187 @@ func runC18(p *core.Prog, r *core.Report) {
 			r.Check(okRet, "C18-R3", "CopyFile: "+sx.CalleeName(c)+" error returns before the copy", p.Pos(c.Pos()), "error edge leaves without copying", "the error of "+sx.CalleeName(c)+" is not checked before the copy step")
 		}
 	})
+}
+
+// checkCopyLoop recognises `for { n, rerr := src.Read(buf); if n > 0 { m, werr := dst.Write(buf[:n]); … }; if rerr == io.EOF
+// { return …, nil }; if rerr != nil { return …, rerr } }` in fn and checks what makes it a complete copy. found is false
+// when fn has no Read/Write pair in a loop.
+func checkCopyLoop(p *core.Prog, fn *ssa.Function) (why string, found bool) {
+	var rd, wr *ssa.Call
+	sx.Instrs(fn, func(in ssa.Instruction) {
+		c, ok := in.(*ssa.Call)
+		if !ok || sx.InnermostLoop(fn, in.Block()) == nil {
+			return
+		}
+		switch n := sx.CalleeName(c); {
+		case n == "(io.Reader).Read" || n == "(*os.File).Read":
+			rd = c
+		case n == "(io.Writer).Write" || n == "(*os.File).Write":
+			wr = c
+		}
+	})
+	if rd == nil || wr == nil {
+		return "", false
+	}
+	h := sx.InnermostLoop(fn, rd.Block())
+	if h == nil || sx.InnermostLoop(fn, wr.Block()) != h {
+		return "the read and the write are not in the same loop", true
+	}
+	hdr := map[*ssa.BasicBlock]bool{h: true}
+	ext := func(c *ssa.Call, i int) ssa.Value {
+		for _, u := range *c.Referrers() {
+			if e, ok := u.(*ssa.Extract); ok && e.Index == i {
+				return e
+			}
+		}
+		return nil
+	}
+	nr, rerr, nw, werr := ext(rd, 0), ext(rd, 1), ext(wr, 0), ext(wr, 1)
+	if nr == nil || rerr == nil || werr == nil {
+		return "the byte count or the error of Read, or the error of Write, is dropped", true
+	}
+	rargs, wargs := sx.Args(rd), sx.Args(wr)
+	// what is written is exactly what was read: buf[:n] of the buffer handed to Read
+	sl, ok := wargs[len(wargs)-1].(*ssa.Slice)
+	if !ok || sl.Low != nil || sl.High != ssa.Value(nr) || sx.Unspill(sl.X) != sx.Unspill(rargs[len(rargs)-1]) {
+		return "Write is not given buf[:n] with buf and n of the preceding Read (" + short(sx.ValPath(wargs[len(wargs)-1])) + ")", true
+	}
+	if !sx.MustPass(fn, nil, wr, sx.Cut{Instrs: map[ssa.Instruction]bool{rd: true}}) {
+		return "Write is reachable without a Read before it", true
+	}
+	// every chunk is written: from the Read, the next iteration or a return is reached only through the Write or over
+	// the `n > 0` false edge
+	skip := map[sx.Edge]bool{}
+	sx.Instrs(fn, func(in ssa.Instruction) {
+		b, ok := in.(*ssa.BinOp)
+		if !ok || b.X != ssa.Value(nr) || b.Referrers() == nil {
+			return
+		}
+		k, isC := sx.ConstInt(b.Y)
+		if !isC {
+			return
+		}
+		for _, u := range *b.Referrers() {
+			if iff, ok := u.(*ssa.If); ok {
+				switch {
+				case b.Op == token.GTR && k == 0, b.Op == token.GEQ && k == 1, b.Op == token.NEQ && k == 0:
+					skip[sx.Edge{From: iff.Block(), Idx: 1}] = true
+				case b.Op == token.LEQ && k == 0, b.Op == token.LSS && k == 1, b.Op == token.EQL && k == 0:
+					skip[sx.Edge{From: iff.Block(), Idx: 0}] = true
+				}
+			}
+		}
+	})
+	cutW := sx.Cut{Instrs: map[ssa.Instruction]bool{wr: true}, Edges: skip}
+	if len(h.Instrs) > 0 {
+		for e := range sx.BackEdgesTo(h) {
+			if sx.ReachInstr(fn, rd, e.From.Instrs[len(e.From.Instrs)-1], cutW) {
+				return "a chunk that was read (n > 0) can be dropped: the loop continues without writing it", true
+			}
+		}
+	}
+	// success only at EOF; a write error or a short write never leads to success nor to the next iteration
+	eof := map[sx.Edge]bool{}
+	sx.Instrs(fn, func(in ssa.Instruction) {
+		b, ok := in.(*ssa.BinOp)
+		if !ok || (b.Op != token.EQL && b.Op != token.NEQ) || b.Referrers() == nil {
+			return
+		}
+		for _, pr := range [][2]ssa.Value{{b.X, b.Y}, {b.Y, b.X}} {
+			if pr[0] != rerr {
+				continue
+			}
+			if ld, ok := pr[1].(*ssa.UnOp); ok && ld.Op == token.MUL {
+				if g, ok := ld.X.(*ssa.Global); ok && g.Name() == "EOF" && g.Pkg.Pkg.Path() == "io" {
+					for _, u := range *b.Referrers() {
+						if iff, ok := u.(*ssa.If); ok {
+							idx := 0
+							if b.Op == token.NEQ {
+								idx = 1
+							}
+							eof[sx.Edge{From: iff.Block(), Idx: idx}] = true
+						}
+					}
+				}
+			}
+		}
+	})
+	if len(eof) == 0 {
+		return "the loop never tests the read error against io.EOF", true
+	}
+	_, wBad := sx.NilEdges(werr)
+	short := map[sx.Edge]bool{}
+	if nw != nil {
+		sx.Instrs(fn, func(in ssa.Instruction) {
+			b, ok := in.(*ssa.BinOp)
+			if !ok || b.Referrers() == nil {
+				return
+			}
+			if !((b.X == nw && b.Y == nr) || (b.X == nr && b.Y == nw)) {
+				return
+			}
+			for _, u := range *b.Referrers() {
+				if iff, ok := u.(*ssa.If); ok {
+					switch b.Op {
+					case token.NEQ, token.LSS, token.GTR:
+						short[sx.Edge{From: iff.Block(), Idx: 0}] = true
+					case token.EQL, token.GEQ, token.LEQ:
+						short[sx.Edge{From: iff.Block(), Idx: 1}] = true
+					}
+				}
+			}
+		})
+	}
+	if len(wBad) == 0 {
+		return "the error of Write is never tested", true
+	}
+	for _, ret := range sx.Returns(fn) {
+		if !sx.ReachInstr(fn, rd, ret, sx.Cut{}) {
+			continue
+		}
+		for _, rc := range retCases(ret, len(ret.Results)-1) {
+			if !sx.IsNilConst(rc.Val) {
+				continue
+			}
+			if !sx.ReachInstr(fn, rd, rc.At, sx.Cut{}) {
+				continue
+			}
+			// within one iteration: from the Read to this success, the io.EOF edge is passed and neither failure edge
+			if sx.ReachInstr(fn, rd, rc.At, sx.Cut{Edges: eof, Blocks: hdr}) {
+				return "success is reported at " + p.Pos(ret.Pos()) + " on a path that did not see io.EOF from Read: the copy may be incomplete", true
+			}
+			for e := range wBad {
+				if reachFromBlockCut(fn, e.To(), rc.At, hdr) {
+					return "after a failed Write the copy can still report success at " + p.Pos(ret.Pos()), true
+				}
+			}
+			for e := range short {
+				if reachFromBlockCut(fn, e.To(), rc.At, hdr) {
+					return "after a short Write the copy can still report success at " + p.Pos(ret.Pos()), true
+				}
+			}
+		}
+	}
+	for e := range wBad {
+		if len(h.Instrs) > 0 && reachFromBlockCut(fn, e.To(), h.Instrs[0], nil) {
+			return "after a failed Write the loop goes on reading", true
+		}
+	}
+	if nw != nil && len(short) == 0 {
+		return "a short Write (fewer bytes written than read, no error) is not detected", true
+	}
+	return "", true
+}
+
+// reachFromBlockCut: target is reachable from the first instruction of b without entering a block of stop.
+func reachFromBlockCut(fn *ssa.Function, b *ssa.BasicBlock, target ssa.Instruction, stop map[*ssa.BasicBlock]bool) bool {
+	if len(b.Instrs) == 0 || stop[b] {
+		return false
+	}
+	if b.Instrs[0] == target {
+		return true
+	}
+	return sx.ReachInstr(fn, b.Instrs[0], target, sx.Cut{Blocks: stop})
 }
 
 func reachFromBlock(fn *ssa.Function, b *ssa.BasicBlock, target ssa.Instruction) bool {
